@@ -64,6 +64,7 @@ Proc &proc_of(int p) { return k->procs[p]; }
 // ---------------------------------------------------------------- fault plans
 void plan_eintr(int call, int kth) { k->eintr_plan.insert({call, kth}); }
 void plan_fail(int call, int kth, int err) { k->fail_plan[{call, kth}] = err; }
+void unplan_fail(int call, int kth) { k->fail_plan.erase({call, kth}); }
 void plan_kill(int proc, int kth, bool after) { k->kill_proc = proc; k->kill_k = kth; k->kill_after = after; }
 int calls_made(int call) { return k->calls[call]; }
 int ipc_calls_of(int proc) { return proc_of(proc).ipc_calls; }
